@@ -50,7 +50,7 @@ Reset ==
     /\ got' = [s \in Subs |-> <<>>] /\ rgot' = [s \in Subs |-> <<>>] /\ unfl' = {}
     /\ regAt' = [s \in Subs |-> -1] /\ lidKnown' = [s \in Subs |-> FALSE] /\ mustGet' = [s \in Subs |-> {}]
     /\ ppc' = [p \in Pubs |-> "idle"] /\ ptop' = [p \in Pubs |-> {}] /\ prep' = [p \in Pubs |-> "no"] /\ pret' = [p \in Pubs |-> ""]
-    /\ accepted' = <<>>
+    /\ accepted' = <<>> /\ lastPutOK' = <<>>
     /\ kpc' = [k \in Downs |-> "idle"] /\ kctx' = {} /\ att' = {} /\ okd' = None /\ jclosed' = FALSE
     /\ panicked' = FALSE /\ late' = FALSE
     /\ auto' = E.auto /\ pid' = [p \in TracePubs |-> ""]
